@@ -17,6 +17,7 @@ import (
 	"strconv"
 	"sync"
 	"testing"
+	"time"
 
 	"github.com/ozontech/file.d/metric"
 	"github.com/ozontech/file.d/pipeline"
@@ -113,6 +114,9 @@ func c06Run(dir string, id int, c *c06Case, jp *jobProvider, lg *zap.SugaredLogg
 		mu:         &sync.Mutex{},
 		isDone:     false,
 	}
+	if fi, err := rf.Stat(); err == nil {
+		job.inode = getInode(fi)
+	}
 	switch c.Op {
 	case "tail", "reset":
 		// the REAL start-state code for this offsets_op; the specification says which state it must leave
@@ -152,14 +156,34 @@ func c06Run(dir string, id int, c *c06Case, jp *jobProvider, lg *zap.SugaredLogg
 	}()
 	for round = 0; round < len(c.Segs); round++ {
 		if round > 0 {
+			maintMode := id % 3 // 0: resumed by the write notification; 1: a maintenance tick on the idle file first; 2: resumed BY maintenance
+			if maintMode == 1 {
+				// the idle, fully read file is looked at by maintenance (descriptor released and re-opened at the same position):
+				// position, held-back tail and offsets are what they were (FileReader.tla: Maintain is a stuttering step)
+				if r := jp.maintenanceJob(job); r != maintenanceResultNoop && r != maintenanceResultResumed {
+					return &c06Mismatch{Kind: "maintenance_disturbed_idle_job", Case: *c, Round: round, Extra: map[string]interface{}{"result": r}}
+				}
+			}
 			if _, err = wf.Write(c06Bytes(c.Segs[round])); err != nil {
 				panic(err)
 			}
-			// what the watcher does on a write notification
-			job.mu.Lock()
-			jp.tryResumeJobAndUnlock(job, path)
-			// drain: tryResume pushed the job into the shared channel; this goroutine owns its own provider
-			<-jp.jobsChan
+			if maintMode == 2 && len(c.Segs[round]) > 0 {
+				// writes are not watched (the default): the growth is noticed by maintenance, also when remove_after has long expired
+				jp.config.RemoveAfter_ = time.Nanosecond
+				job.eofReadInfo.setUnixNanoTimestamp(1)
+				r := jp.maintenanceJob(job)
+				jp.config.RemoveAfter_ = 0
+				if r != maintenanceResultResumed {
+					return &c06Mismatch{Kind: "maintenance_did_not_resume_grown_file", Case: *c, Round: round, Extra: map[string]interface{}{"result": r}}
+				}
+				<-jp.jobsChan
+			} else {
+				// what the watcher does on a write notification
+				job.mu.Lock()
+				jp.tryResumeJobAndUnlock(job, path)
+				// drain: tryResume pushed the job into the shared channel; this goroutine owns its own provider
+				<-jp.jobsChan
+			}
 		}
 		rec.calls = rec.calls[:0]
 		jp.jobsChan <- job
